@@ -183,6 +183,20 @@ def well_formed(rules):
                 if k > 0 and type(it.item) is Ref and it.item.name in leftrec and leader.get(it.item.name) == leader[n]:
                     if all(_nullable_item(p.item, nullable) for p in a.items[:k]):
                         return False
+    # every strongly connected component of the first-graph must have a leader; the harness only generates the two shapes whose
+    # semantics do not depend on the choice of leader: a single self-loop, or a pure 2-cycle
+    for n in leftrec:
+        members = {m for m in leftrec if leader[m] == leader[n]}
+        edges = {(u, v) for u in members for v in graph[u] if v in members}
+        if len(members) == 1:
+            ok = edges == {(n, n)}
+        elif len(members) == 2:
+            a, b = sorted(members)
+            ok = edges == {(a, b), (b, a)}
+        else:
+            ok = False
+        if not ok:
+            return False
     return not any(nullable.values())
 
 
